@@ -522,9 +522,9 @@ func runC07(c *Ctx) {
 				usable = append(usable, id)
 			}
 		}
-		kindW := []int{5, 5, 0}
+		kindW := []int{5, 5, 0, 1}
 		if shared {
-			kindW = []int{1, 0, 0}
+			kindW = []int{1, 0, 0, 0}
 		}
 		if mutation {
 			kindW[2] = 2
@@ -568,6 +568,20 @@ func runC07(c *Ctx) {
 			op.fields = w.genFields(g, 1000+logN, mutation && !gn[op.node].slog, gn[op.node].slog)
 		case 2:
 			op.mut = g.Draw(len(w.muts))
+		case 3:
+			// a derivation that is abandoned: one of the fields has a marshaler
+			// that panics, the application recovers; no logger comes of it, and
+			// the node it was derived from, its ancestors and siblings are as before
+			op.node = usable[g.Draw(len(usable))]
+			if gn[op.node].slog {
+				op.kind = 2
+				if !mutation {
+					continue
+				}
+				op.mut = g.Draw(len(w.muts))
+			} else {
+				op.fields = w.genFields(g, 5000+len(ops), false, false)
+			}
 		}
 		ops = append(ops, op)
 		c.MixState(uint64(op.kind)<<16 | uint64(op.how)<<12 | uint64(op.node)<<4 | uint64(len(op.fields)))
@@ -582,6 +596,8 @@ func runC07(c *Ctx) {
 			pd = append(pd, fmt.Sprintf("t%d:log(n%d,fe%d,%d fields)", op.task, op.node, op.front, len(op.fields)))
 		case 2:
 			pd = append(pd, fmt.Sprintf("mutate(m%d)", op.mut))
+		case 3:
+			pd = append(pd, fmt.Sprintf("t%d:abandoned-With(n%d,%d fields+panicking marshaler)", op.task, op.node, len(op.fields)))
 		}
 	}
 	c.Describe("%s", strings.Join(pd, " "))
@@ -726,6 +742,16 @@ func runC07(c *Ctx) {
 		case 2:
 			w.muts[op.mut]++
 			w.mutated(op.mut)
+		case 3:
+			if mutation {
+				w.force(w.nodes[op.node]) // an eager derivation on top, even an abandoned one, may evaluate lazy fields below
+			}
+			func() {
+				defer func() { _ = recover() }()
+				fs := append(w.zapFields(op.fields), zap.Namespace("abandoned"), zap.Object("boom", c8panicObj{}))
+				_ = w.nodes[op.node].lg.With(fs...)
+			}()
+			c.R.Probe("derivation abandoned by a panicking marshaler, recovered")
 		}
 	}
 
